@@ -117,7 +117,7 @@ def resize(repo: Repo) -> List[Ob]:
     for q in RESIZERS:
         ci = repo.func(q).cls
         for mname, m in ci.methods.items():
-            if m in targets or not mname.startswith("_") or mname.startswith("__"):
+            if m in targets or not mname.startswith("_") or mname.startswith("__") or m.qualname in getattr(repo, "absorbed", ()):
                 continue
             ps_ = [p_ for p_ in m.params if p_ not in ("self", "cls")]
             if ps_ and any(isinstance(a_, ast.Assign) and any(isinstance(t_, ast.Attribute) and t_.attr in ("dimensions", "_dimensions") for t_ in a_.targets) and src(a_.value) in ps_
@@ -140,6 +140,10 @@ def resize(repo: Repo) -> List[Ob]:
                 f = src(n.value.func)
                 if f.split(".")[-1] in ("num_quanta_vector", "num_quanta_matrix"):
                     syms[n.targets[0].id] = "nq"
+            # nq = num_quanta_matrix(x) if <matrix> else num_quanta_vector(x)
+            if isinstance(n, ast.Assign) and isinstance(n.targets[0], ast.Name) and isinstance(n.value, ast.IfExp) \
+                    and all(isinstance(v_, ast.Call) and src(v_.func).split(".")[-1] in ("num_quanta_vector", "num_quanta_matrix") for v_ in (n.value.body, n.value.orelse)):
+                syms[n.targets[0].id] = "nq"
             if isinstance(n, ast.Assign) and isinstance(n.targets[0], ast.Name) and isinstance(n.value, ast.Attribute) and n.value.attr == "_num_quanta":
                 syms[n.targets[0].id] = "nq"
         for d in ("self.dimensions", "self.fock.dimensions", "fock.dimensions"):
@@ -209,6 +213,51 @@ def resize(repo: Repo) -> List[Ob]:
                                "occupied amplitudes are cut off and the call still reports success"))
             else:
                 obs.append(ok("RESIZE", fi, key, PC, a, "shrinking is guarded by num_quanta < new_dimensions (or the path only grows)"))
+        # (b') the guard looks at the occupation of *the space that is resized*: the Fock's own state, or its reduced state obtained through
+        # trace_out (which finds the axis from the member's index); a reduction of the stored tensor over axes fixed in the source
+        # presumes a storage order that must have been established first
+        g = 0
+        for n in cfg.nodes:
+            for x in walk_node(n):
+                if not (isinstance(x, ast.Call) and (dotted(x.func) or "").split(".")[-1] in ("num_quanta_vector", "num_quanta_matrix") and x.args):
+                    continue
+                g += 1
+                key = f"guard-operand#{g}"
+                arg = resolve_at(cfg, n, x.args[0], depth=4)
+                base = arg
+                while True:
+                    if method_call(base) and method_call(base)[1] in ("reshape", "astype", "copy", "flatten", "ravel"):
+                        base = method_call(base)[0]
+                    elif isinstance(base, ast.Call) and call_np(base) in ("asarray", "array", "abs", "reshape", "real", "diag", "diagonal") and base.args:
+                        base = base.args[0]
+                    elif isinstance(base, ast.BinOp) and isinstance(base.op, ast.Pow):
+                        base = base.left
+                    else:
+                        break
+                fock_names = ("self.fock", "fock", "self") if not (fi.cls is not None and fi.cls.name == "Fock") else ("self",)
+                mcb = method_call(base)
+                if src(base) == "self.state" and fi.cls is not None and fi.cls.name == "Fock":
+                    obs.append(ok("RESIZE", fi, key, PC, x, "the guard reads the Fock's own state"))
+                elif mcb and mcb[1] == "trace_out":
+                    recv = src(mcb[0])
+                    sub = [src(a_) for a_ in base.args]
+                    good = (recv in ("self.fock", "fock") and not sub) or (recv == "self" and ((fi.cls.name == "Fock" and not sub) or sub in (["self.fock"], ["fock"])))
+                    (obs.append(ok("RESIZE", fi, key, PC, x, "the guard reads the reduced state of the Fock space that is resized")) if good else
+                     obs.append(bad("RESIZE", fi, key, PC, x, f"the shrink guard reads `{src(base)[:50]}` – not the reduced state of the Fock space that is resized: its occupied levels are not the ones that would be cut")))
+                else:
+                    tensor_of_state = any(src(y) == "self.state" for y in ast.walk(arg))
+                    fixed = tensor_of_state and not any(isinstance(y, ast.Attribute) and y.attr == "index" for y in ast.walk(arg))
+                    if fixed and fi.cls is not None and fi.cls.name == "ProductState":
+                        from .esc import order_established
+                        local, n_callers, missing = order_established(repo, fi, n, cfg)
+                        good = local or (n_callers > 0 and not missing)
+                        (obs.append(ok("RESIZE", fi, key, PC, x, "fixed-axis reduction of the stored tensor, the storage order is established by every caller")) if good else
+                         obs.append(bad("RESIZE", fi, key, PC, x,
+                                        f"the shrink guard reduces the stored tensor over axes fixed in the source (`{src(arg)[:70]}`), but on which axis the Fock space sits is decided by state_objs at run time and "
+                                        + (f"{', '.join(missing)} reach(es) this method without `self.reorder(<that Fock>)`" if missing else "no caller establishes the order")
+                                        + ": the guard looks at another member's levels, occupied levels are cut and success is reported")))
+                    else:
+                        obs.append(skip("RESIZE", fi, key, PC, x, f"cannot read whose occupation `{src(arg)[:60]}` measures"))
         # (c) a successful return after a dimension write has also re-written the stored array (except labels)
         j = 0
         for n in cfg.nodes:
